@@ -149,6 +149,18 @@ def main() -> None:
     if mode == "server":
         serve()
         return
+    if mode == "builder":
+        import base64
+        import pickle
+
+        import world
+
+        for ln in sys.stdin:
+            ln = ln.strip()
+            if ln:
+                sys.stdout.write(base64.b64encode(pickle.dumps(world.build_graph(json.loads(ln)))).decode() + "\n")
+                sys.stdout.flush()
+        return
     with open(args["out"], "w") as out:
         if mode == "regen":
             if args["prop"] in ("C14", "C02", "C04"):
